@@ -164,9 +164,10 @@ type c03cfg struct {
 	// replies of every kind, unsafe cancellation instants, lazy consumers
 	// everywhere, no limit on workers sitting on a record).
 	Racy        bool
-	LateRecords bool // a cancelled GET_VALUE request to an honest holder of the record is always answered late, never lets the cancellation win
+	BigFollowUp bool   // quorum scenario: large K, small alpha/beta, quorum 1..2
+	LateRecords bool   // a cancelled GET_VALUE request to an honest holder of the record is always answered late, never lets the cancellation win
 	Client      string // "" the standard client on H1; "fullrt", "dual": c03_clients.go
-	Kinds  []int  // operation kinds to draw from (nil: the eight routing operations)
+	Kinds       []int  // operation kinds to draw from (nil: the eight routing operations)
 
 	N, K, Alpha, Beta int
 	FaultLevel        int // 0 none, 1 light, 2 heavy, 3 every peer fails
@@ -315,13 +316,13 @@ type c03world struct {
 	// bulkSingleKey: bulk operations get one key (accelerated client, ordinary
 	// scenario, table larger than 2K: see c03_clients.go)
 	bulkSingleKey bool
-	cfg      c03cfg
-	peers map[peer.ID]*c03peer
-	ops   []*c03op
-	byKey map[string]*c03op
-	byTag map[string]*c03op
-	seen  map[string]time.Duration // park id -> virtual time at which the scheduler first saw it
-	warm  bool                     // warm-up: every peer honest and immediate
+	cfg           c03cfg
+	peers         map[peer.ID]*c03peer
+	ops           []*c03op
+	byKey         map[string]*c03op
+	byTag         map[string]*c03op
+	seen          map[string]time.Duration // park id -> virtual time at which the scheduler first saw it
+	warm          bool                     // warm-up: every peer honest and immediate
 
 	faultStop       int
 	drainBackground bool
@@ -431,9 +432,17 @@ func runC03(s *sim.Sim, c c03cfg) {
 	if c.Quorum {
 		// as above: a follow-up phase with several peers, and records on most
 		// peers, so that the quorum is reached at different phases
-		c.K = s.Range("qk", 3, 16)
-		c.Beta = s.Range("qbeta", 1, 3)
-		c.Alpha = s.Range("qalpha", 1, 3)
+		// (two classes: a long follow-up - most of a large K still unqueried when
+		// the search ends, low quorum - and anything)
+		if c.BigFollowUp = s.Chance("big-followup", 2, 3); c.BigFollowUp {
+			c.K = s.Range("qk", 8, 20)
+			c.Beta = s.Range("qbeta", 1, 2)
+			c.Alpha = s.Range("qalpha", 1, 2)
+		} else {
+			c.K = s.Range("qk", 3, 10)
+			c.Beta = s.Range("qbeta", 1, 3)
+			c.Alpha = s.Range("qalpha", 1, 3)
+		}
 		if c.N < c.K+2 {
 			c.N = c.K + 2
 		}
@@ -773,7 +782,9 @@ func (w *c03world) genOp(i int, rng *subRng, usedTags map[string]bool) *c03op {
 		holders := 0 // of 4; 0: every other peer
 		switch {
 		case c.Quorum:
-			op.quorum = s.Range("quorum", 1, 4)
+			if op.quorum = s.Range("quorum", 1, 4); c.BigFollowUp {
+				op.quorum = 1 + op.quorum%2
+			}
 			holders = []int{2, 3, 4, 4}[s.Draw("holders", 4)]
 		case c.Client == "fullrt":
 			// the accelerated client has no stop signal: the value loop just stops
